@@ -388,8 +388,8 @@ PROPS["C19"] = dict(
 
 PROPS["C20"] = dict(
     pkg="c20", race=True, level="exploration", prepare="exec_projects", crash_is_violation=True,
-    projects_quick=[("fed2", ["v0", "v1", "x1"]), ("fed1", ["v0"])],
-    projects_thorough=[("fed2", ["v0", "v1", "w2", "v2", "x1"]), ("fed1", ["v0", "v1", "x1"])],
+    projects_quick=[("fed2", ["v0", "v1", "x1", "x2"]), ("fed1", ["v0"])],
+    projects_thorough=[("fed2", ["v0", "v1", "w2", "v2", "x1", "x2"]), ("fed1", ["v0", "v1", "x1"])],
     quick=dict(shards=8, timeout=900), thorough=dict(shards=16, timeout=3000),
     claim="model-based testing of federation _entities on servers generated with the federation plugin (v1 and v2 schemas, several "
           "option vectors): rapid draws representation lists of length 0-12 (interleaved entity types, duplicates, single and compound "
@@ -401,7 +401,7 @@ PROPS["C20"] = dict(
           "One entity has a composite first key and a second key; a generic generator makes every key field independently present, null or absent; vector x1 generates with federation explicit_requires and a harness-written populator",
     note="the entity_resolver_multi package option named in the property text does not exist at the pinned commit; batch resolvers come "
          "from the @entityResolver(multi: true) directive; explicit_requires is covered by vector x1 (the harness writes the user's populator, which copies the @requires field "
-         "from the representation it is handed); computed_requires moves the requirement into resolver arguments and is not generated here; for batch groups a failing member nulls its whole (type, key) group (the documented GetMany contract)",
+         "from the representation it is handed); computed_requires by vector x2 (the @requires fields are resolvers that receive the required fields of their representation; the harness's resolvers return their sum, so the response shows which representation was handed over); for batch groups a failing member nulls its whole (type, key) group (the documented GetMany contract)",
     technique="model-based property testing (rapid) with identity-stamped resolvers + Go race detector",
     rule="evaluation = one _entities request on one vector; non-trivial = >=3 representations of >=2 types with >=1 failing one; distinct by the case",
     assumptions=["the model picks the first @key whose fields are all present and not all null, as the generated code documents"],
